@@ -529,6 +529,62 @@ func keyBytes() {
 	w.Sample(map[string]interface{}{"inject_key_bytes": "GBK: c4 e3 (U+4F60) alone, and 'a' + c4 e3", "expect": "one KeyRune event per character, InjectKeyBytes returns true"})
 }
 
+// statefulCharsets: in a character set with shift states (ISO-2022-JP, HZ) the Bytes of a cell
+// still are the encoding of that cell's runes - what a fresh encoder gives for them - and do
+// not depend on what was drawn before; a rune the set lacks gets the fallback rules.
+func statefulCharsets() {
+	if *hc.Shard != 0 {
+		return
+	}
+	for _, cs := range []string{"ISO2022JP", "HZ-GB-2312"} {
+		enc := tcell.GetEncoding(cs)
+		if enc == nil {
+			continue
+		}
+		cells := []struct {
+			x int
+			r rune
+		}{{0, 0x4e16}, {2, 0x4e16}, {4, 'a'}, {5, 'a'}, {6, 0x0e01}, {7, 0x4e16}}
+		want := func(r rune) string {
+			b, err := enc.NewEncoder().Bytes([]byte(string(r)))
+			if err != nil || len(b) == 0 {
+				return "?"
+			}
+			return string(b)
+		}
+		for _, order := range [][]int{{0, 1, 2, 3, 4, 5}, {5, 4, 3, 2, 1, 0}, {2, 0, 4, 1, 3, 5}} {
+			for _, showEach := range []bool{false, true} {
+				w.R.Evaluations++
+				w.AddDistinct(1)
+				s := tcell.NewSimulationScreen(cs)
+				if err := s.Init(); err != nil {
+					w.Violation("sim-init:"+cs, fmt.Sprintf("NewSimulationScreen(%q).Init: %v", cs, err), nil)
+					break
+				}
+				s.SetSize(10, 1)
+				for _, i := range order {
+					s.SetContent(cells[i].x, 0, cells[i].r, nil, tcell.StyleDefault)
+					if showEach {
+						s.Show()
+						s.CanDisplay(0x4e16, false)
+					}
+				}
+				s.Show()
+				got, _, _ := s.GetContents()
+				for _, c := range cells {
+					g := strings.TrimRight(string(got[c.x].Bytes), " ")
+					if g != want(c.r) {
+						w.Violation("sim-bytes-stateful:"+cs, fmt.Sprintf("charset %s, cells drawn in order %v (Show after each: %v): cell %d holding %q has Bytes %q, want %q (its encoding on its own; the same rune elsewhere on the row must have the same Bytes)", cs, order, showEach, c.x, string(c.r), got[c.x].Bytes, want(c.r)),
+							map[string]interface{}{"charset": cs, "order": order})
+						break
+					}
+				}
+				s.Fini()
+			}
+		}
+	}
+}
+
 type iev struct {
 	name string
 	do   func(s tcell.SimulationScreen)
@@ -681,6 +737,7 @@ func main() {
 	}
 	draws()
 	keyBytes()
+	statefulCharsets()
 	injectSequences()
 	isolation()
 	for i := int64(0); i < w.R.States; i++ {
